@@ -209,7 +209,7 @@ def check(c):
             if uml_calls or os.path.exists(out_path):
                 return violation("invalid call (%s) was rejected only after output had been produced (uml=%s, file=%s): %s" % (
                     "; ".join(exp_call), uml_calls, os.path.exists(out_path), call), labels, nt)
-            if holder["s"]._target_classes_dict is not None:
+            if getattr(holder["s"], "_target_classes_dict", None) is not None:
                 return violation("invalid call (%s) was rejected only after the extraction had been run (deferred failure): %s" % ("; ".join(exp_call), call), labels, nt)
             return ok(labels, nt)
         if crash is None and call["sink"] in ("uml", "uml+string") and uml_calls != [uml_path]:
